@@ -101,4 +101,15 @@ PROPS = {
   'explanation': 'C11_key_is_name and C11_served_confined hold for every byte string; the regexps are regenerated from server.go and must equal the strings the parsers were written from; '
                  'the oracle looks for markers of outside files in every response.',
  },
+ 'C18': {
+  'rule': 'every (offset, length) pair on objects of 0/1/5/8 bytes (thorough: up to 300) incl. crossing and beyond the end and zero length, x {unconditioned, current tag, stale tag}, '
+          'on the in-memory, local-directory (through OpenBucket file://) and HTTP (through OpenBucket http:// against an RFC 7232/7233 origin) backends; missing objects; replacement '
+          'histories (rewrite and rename-over, same and different sizes, mtimes differing by 1 ns / within one second / by seconds / backwards, repeated contents) observed as tag equality classes '
+          'and stale-read refusals; HTTP faults (connection refused, reset, 204/301/403/404/412/416/500/503). Non-trivial: non-empty object or fault; distinct by case line',
+  'trusted_base': ['the OS file API (ReadAt, Stat, rename) and that the harness can set mtimes with Chtimes; the loopback origin is net/http.ServeContent',
+                   'tags are compared as equality classes: xxhash64 no-collision on the (mtime,size) pairs / contents of one history',
+                   'the cloud adapter (gocloud) is modelled only through its status classification'],
+  'assumptions': ['HTTP origins implement Range and If-Match as RFC 7232/7233 say', 'for the local backend a replacement changes mtime or size'],
+  'explanation': 'The read models of the three backends are compared with the real backends (opened through OpenBucket) on every case; the theorems state the property clauses for every object, offset and length.',
+ },
 }
